@@ -60,6 +60,8 @@ def cases(tier, seed):
                 # the same strategies under per-point (fixed) observation noise, with and without a learned additional noise
                 for lk in ("fixed", "fixed_learned"):
                     yield {"kind": "strategy", "model": model, "max_cholesky_size": chol, "fast_pred_var": fpv, "sgpr_diagonal_correction": corr, "use_toeplitz": tz, "lik": lk, "seed": rnd.randrange(10**6)}
+        for model, chol, fpv in itertools.product(["kiss1d", "sgpr", "rff"], [800, 0], [False, True]):
+            yield {"kind": "strategy", "model": model, "max_cholesky_size": chol, "fast_pred_var": fpv, "sgpr_diagonal_correction": True, "use_toeplitz": True, "reload": True, "seed": rnd.randrange(10**6)}
         # fast_pred_samples (the statement names it): KISS-GP returns the posterior covariance as a root W* R, R R^T = K_UU - cache
         for model, chol, fpv in itertools.product(["kiss1d", "kiss2d"], [800, 0], [False, True]):
             yield {"kind": "strategy", "model": model, "max_cholesky_size": chol, "fast_pred_var": fpv, "fast_pred_samples": True, "sgpr_diagonal_correction": True, "use_toeplitz": True, "seed": rnd.randrange(10**6)}
@@ -363,6 +365,18 @@ def _nystrom(case, ctx, g):
         ctx.close("nystrom", dg, torch.diagonal(_eager(bk, X, X))[: case["m"]], (3e-8, 3e-8), cls="nystrom:diag_at_inducing_points:" + ("corr" if corr else "plain"))
     if gx2 is not None:
         ctx.close("nystrom", gx2, refs[0][1], (1e-7, 1e-7), cls="nystrom:cross", alt=refs[1][1])
+    # the diagonal paths (diag=True, lazy diagonal): of K(X, X), and of K(X_a, X_b) for two DIFFERENT point sets of equal length
+    # (there the corrected diagonal does not apply: plain Nystrom values)
+    with torch.no_grad(), S.sgpr_diagonal_correction(case["correction"]):
+        Xa = X[: X2.shape[-2]]
+        dxx = ipk(X, diag=True)
+        if gx2 is not None:  # (training mode documents x1 == x2)
+            dab = ipk(Xa, X2, diag=True)
+            lab = ipk(Xa, X2).diagonal(dim1=-2, dim2=-1)
+    ctx.close("nystrom", dxx, torch.diagonal(gxx), (1e-10, 1e-10), cls="nystrom:diag_xx")
+    if gx2 is not None:
+        ctx.close("nystrom", dab, torch.diagonal(gx2[: X2.shape[-2]]), (1e-10, 1e-10), cls="nystrom:diag_two_point_sets")
+        ctx.close("nystrom", lab, torch.diagonal(gx2[: X2.shape[-2]]), (1e-10, 1e-10), cls="nystrom:lazy_diag_two_point_sets")
 
 
 def _rff(case, ctx, g):
@@ -465,6 +479,28 @@ def _strategy(case, ctx, g):
         tol = "lanczos" if iterative else (1e-5, 1e-5)
     ctx.close("strategy_equals_dense_conditional", mean, ref_m, tol, cls=cls + ":mean", model=case["model"], quantity="mean")
     ctx.close("strategy_equals_dense_conditional", cov, ref_c, tol, cls=cls + ":cov", model=case["model"], quantity="cov")
+    if case.get("reload"):
+        # still in evaluation mode: other parameter values (and inducing points) are loaded into the model that has just
+        # predicted; it then predicts what a freshly built model holding the same state predicts (anchor for the kernel matrix)
+        sd_new = {k_: (v_ + 0.3 * util.randn(g, *v_.shape) if (k_.rsplit(".", 1)[-1].startswith("raw_") or k_.endswith("inducing_points")) and "constraint" not in k_ and v_.dtype.is_floating_point else v_)
+                  for k_, v_ in m.state_dict().items()}
+        m.load_state_dict(sd_new)
+        fr, lik_f, _, _, _ = _mk_model(case["model"], util.gen(case["seed"] + 5), lk=case.get("lik", "gaussian"))
+        fr.set_train_data(X, y, strict=False)
+        fr.load_state_dict(m.state_dict())
+        fr.eval()
+        with util.settings_ctx(sd, tight=True, n=2 * n, predict_only=True), torch.no_grad():
+            out2 = m(xs)
+            J2 = fr.covar_module(torch.cat([X, xs], -2)).to_dense()
+            mu2 = fr.mean_module(torch.cat([X, xs], -2))
+            Kss2 = J2[n:, n:]
+            if case["model"] == "sgpr":
+                with S.lazily_evaluate_kernels(False):
+                    Kss2 = fr.covar_module.base_kernel(xs).to_dense()
+        s2b = fr.likelihood.noise.detach().reshape(-1).expand(n)
+        rm2, rc2, _, _ = util.dense_conditional(J2[:n, :n], J2[n:, :n], Kss2, mu2[:n], mu2[n:], torch.diag(s2b), y)
+        ctx.close("strategy_equals_dense_conditional", out2.mean, rm2, tol, cls=cls + ":mean:reloaded_in_eval_mode", model=case["model"], quantity="mean")
+        ctx.close("strategy_equals_dense_conditional", out2.covariance_matrix, rc2, tol, cls=cls + ":cov:reloaded_in_eval_mode", model=case["model"], quantity="cov")
 
 
 def _strategy_batch(case, ctx, g):
